@@ -330,6 +330,21 @@ def _perturbation(old, new, kind):
     return vec
 
 
+def _shared_series(old, new, kind):
+    """Names of time series of the sample that are the very object the source holds ("sampling returns ... copies")."""
+    shared = []
+    if kind == "parset":
+        src = {id(ts) for par in old.all_pars() for ts in par.ts.values()}
+        for par in new.all_pars():
+            shared += [f"{par.name}/{pop}" for pop, ts in par.ts.items() if id(ts) in src]
+    else:
+        names = ("spend_data", "unit_cost", "capacity_constraint", "saturation", "coverage")
+        src = {id(getattr(pr, nm)) for pr in old.programs.values() for nm in names}
+        for pr in new.programs.values():
+            shared += [f"{pr.name}.{nm}" for nm in names if id(getattr(pr, nm)) in src]
+    return shared
+
+
 def _mapping_function(results, outputs=None):
     """Ensemble mapping function (module level so that pickle/dill ship it by reference)."""
     import atomica as at
@@ -452,11 +467,14 @@ def run(ch, idx, tier):
 
     seams.patch(aproj, "_run_sampled_sim", rss_wrapper)
 
+    aliased = []  # series of a sample that are the source's own objects
     orig_ps_sample = aparams.ParameterSet.sample
     orig_pg_sample = aprogs.ProgramSet.sample
 
     def ps_sample(self, *a, **k):
         new = orig_ps_sample(self, *a, **k)
+        if new is not self:
+            aliased.extend(_shared_series(self, new, "parset")[:3])
         if world.sample_stack:
             rec = samples[world.sample_stack[-1]]
             rec["attempts"].append({"parset": _perturbation(self, new, "parset"), "progset": []})
@@ -464,6 +482,8 @@ def run(ch, idx, tier):
 
     def pg_sample(self, *a, **k):
         new = orig_pg_sample(self, *a, **k)
+        if new is not self:
+            aliased.extend(_shared_series(self, new, "progset")[:3])
         if world.sample_stack:
             rec = samples[world.sample_stack[-1]]
             if rec["attempts"]:
@@ -653,6 +673,10 @@ def run(ch, idx, tier):
     # (3) sources untouched
     if digest_obj(parset) != d_parset0:
         violations.append({"cls": "source_parset_modified", "site": site, "detail": {"config": config}})
+    if aliased:
+        # a sample that holds the source's own mutable series is not a copy: editing the sample edits the source and
+        # every other sample of the call
+        violations.append({"cls": "sample_shares_objects_with_source", "site": site, "detail": {"series": aliased[:6], "config": config}})
     if progset is not None and digest_obj(progset) != d_progset0:
         violations.append({"cls": "source_progset_modified", "site": site, "detail": {"config": config}})
     if digest_obj(instructions) != d_instr0:
